@@ -578,6 +578,9 @@ func declaredConsts(nt *types.Named) []int64 {
 
 // flow runs the forward dataflow; returns the join at returns and per-block in-states.
 func (ra *replyAnalysis) flow(fn *ssa.Function) (cntSet, map[*ssa.BasicBlock]cntSet) {
+	// on inlined views the function is analysed with its helpers folded in: 'the helper answered and said so' is
+	// then a branch of this function, not a summary that has lost the connection between the two
+	fn = ra.p.view(fn)
 	rv := ra.respValues(fn)
 	ra.pruneEdges(fn)
 	in := map[*ssa.BasicBlock]cntSet{}
